@@ -74,12 +74,14 @@ def run(ctx):
     thorough = ctx.thorough
     rng = random.Random(ctx.seed)
     nv = 2
-    names2, names3 = ["n1", "n2"], ["n1", "n2", "n3"]
+    # namespace names are opaque, case-sensitive keys: two differ only in letter case, one is a prefix of another
+    names2, names3 = ["n1", "N1"], ["n1", "N1", "n10"]
     cov = ctx.cov
     ctx.assumptions += [
         "reload = ReloadNamespacePrepare immediately followed by ReloadNamespaceCommit of the same namespace (C31 covers other orders)",
-        "a pair (user, password) belongs to at most one namespace at a time (the control plane's uniqueness rule); user names are "
-        "shared between namespaces; every configuration passes models.Namespace.Verify",
+        "a pair (user, password) belongs to at most one namespace at a time (the control plane's uniqueness rule): a configuration is "
+        "submitted only when its pairs are free; pairs may move to another namespace after their owner dropped them or was deleted; "
+        "user names are shared between namespaces; every configuration passes models.Namespace.Verify",
         "authentication = Session.Handshake's conclusion: CheckUser, CheckPassword (native), GetNamespaceByUser, namespace exists",
     ]
 
@@ -88,64 +90,58 @@ def run(ctx):
         res, summ = R.replay(ctx, "C29", [rec["case"]], rec["creds"], handshake_every=1, use_ptr=True)
         for x in res:
             x["_creds"] = rec["creds"]
-        report(ctx, res, summ, rec["names"], rec["nv"])
+        report(ctx, res, summ["sig_count"], rec["names"], rec["nv"])
         return
 
     def empty(names):
         return [[0] * len(names)]
 
     # ------------------------------------------------------------------ 1. model checking
-    mc_names = names2
-    table = R.c29_table(rng, mc_names, 6 if thorough else 3)
+    table = R.c29_table(rng, names2, 6 if thorough else 3)
     nsc = len(table["scenarios"])
-    plain = {"scenarios": {"1": R.core_scenarios(mc_names)[-1]}, "extra": []}
-    r1 = R.mc(ctx, mc_names, nv, table, empty(mc_names), True, False, INVS_ABS, PROPS,
-              "abstract directory of the double buffer vs reference triples, %d credential scenarios" % nsc)
+    r1 = R.mc(ctx, names2, nv, table, empty(names2), True, False, INVS_ABS + ["CodeUsersRefine"], PROPS,
+              "abstract and code-shaped (pair-keyed) user directory of the double buffer vs reference triples, %d credential "
+              "scenarios" % nsc, allow_violation=True, exact_keys=True)
+    candidate = None
+    if r1.violated:
+        sc, ops = parse_candidate(r1.trace_text)
+        candidate = {"violated": r1.violated, "sc": sc, "ops": ops}
+        ctx.log("I-level counterexample (candidate): scenario", sc, table["scenarios"][str(sc)], ops)
+    elif r1.zero_actions:
+        ctx.notes.append("vacuous actions: %s" % r1.zero_actions)
+    cov["model_checking"] = {"user_directory": {"violated": r1.violated, "distinct": r1.distinct}, "scenarios": nsc}
     if thorough:
         core3 = {"scenarios": {str(i + 1): sc for i, sc in enumerate(R.core_scenarios(names3))}, "extra": []}
-        R.mc(ctx, names3, nv, core3, empty(names3), True, False, INVS_ABS, PROPS,
-             "abstract directory vs reference triples, 3 namespaces, hand-picked scenarios")
-    r2 = R.mc(ctx, mc_names, nv, table, empty(mc_names), True, False, ["TypeOK", "CodeUsersRefine"], [],
-              "directory as the code keeps it (keys joined and split on ':') vs reference", allow_violation=True)
-    candidate = None
-    if r2.violated:
-        sc, ops = parse_candidate(r2.trace_text)
-        candidate = {"violated": r2.violated, "sc": sc, "ops": ops}
-        ctx.log("I-level counterexample (candidate): scenario", sc, table["scenarios"][str(sc)], ops)
-    else:
-        ctx.notes.append("the code-shaped directory answers like the reference in TLC for all scenarios: no candidate")
-    r3 = R.mc(ctx, mc_names, nv, plain, empty(mc_names), True, False, ["TypeOK", "CodeUsersRefine", "UsersRefine"], PROPS,
-              "control: credentials without ':' - the code-shaped directory must answer like the reference")
-    r4 = R.mc(ctx, mc_names, nv, table, empty(mc_names), True, False, ["TypeOK", "CodeUsersRefine", "UsersRefine"], PROPS,
-              "proposed repair (the key is the pair, nothing is split) vs reference", exact_keys=True)
-    for rr in (r1, r3, r4):
-        if rr.zero_actions:
-            ctx.notes.append("vacuous actions: %s" % rr.zero_actions)
-    cov["model_checking"] = {"abstract_directory": r1.distinct, "code_shaped_directory": {"violated": r2.violated, "distinct": r2.distinct},
-                             "no_colon_control": r3.distinct, "proposed_fix": r4.distinct, "scenarios": nsc}
+        r3 = R.mc(ctx, names3, nv, core3, empty(names3), True, False, INVS_ABS + ["CodeUsersRefine"], PROPS,
+                  "the same with 3 namespaces, hand-picked scenarios", exact_keys=True)
+        rh = R.mc(ctx, names2, nv, table, empty(names2), True, False, ["TypeOK", "CodeUsersRefine"], [],
+                  "for the record: the directory as it was before fix f8962a4 (keys joined with ':' and split again)",
+                  allow_violation=True)
+        cov["model_checking"]["three_namespaces"] = r3.distinct
+        cov["model_checking"]["joined_key_model_before_fix"] = {"violated": rh.violated, "distinct": rh.distinct}
 
     # ------------------------------------------------------------------ 2. G
-    plans = [dict(names=names2, len=4, nrandom=4)]
-    sims = [dict(names=names3, len=6, num=60, nrandom=6)]
+    plans = [dict(names=names2, len=4, nrandom=3)]
+    sims = []
     if thorough:
         plans = [dict(names=names2, len=5, nrandom=8), dict(names=names3, len=3, nrandom=6)]
         sims = [dict(names=names3, len=8, num=1500, nrandom=12)]
-    known_cases = [k["case"] for k in vlib.load_known("C29") if isinstance(k.get("case"), dict)]
+    known = [k for k in vlib.load_known("C29") if isinstance(k.get("case"), dict)]
     nontriv = 0
     total = 0
     first = True
+    selftest = {}
     for p in plans + sims:
         sim = "num" in p
         names = p["names"]
-        if first and names == mc_names:
-            tb = table                      # the scenarios TLC just model-checked (so that the candidate can be looked up)
-        else:
-            tb = R.c29_table(rng, names, p["nrandom"])
+        tb = table if (first and names == names2) else R.c29_table(rng, names, p["nrandom"])
+        control = str(len(R.core_scenarios(names)))          # the last hand-picked scenario: no ':' anywhere
         label = ("simulate %d operations" if sim else "all behaviours of %d operations") % p["len"] + \
             ", %d namespaces, %d scenarios" % (len(names), len(tb["scenarios"]))
         kw = dict(mode="sim", sim="num=%d" % p["num"], depth=2 * p["len"] + 1, seed=rng.randrange(1, 2 ** 31)) if sim else {}
-        path, n, _ = R.generate(ctx, names, nv, tb, empty(names), True, p["len"], True, label, **kw)
+        path, n, _ = R.generate(ctx, names, nv, tb, empty(names), True, p["len"], True, label, exact_keys=True, **kw)
         cand_at = None
+        sab = None
         with open(path) as f:
             for line in f:
                 c = json.loads(line)
@@ -155,19 +151,37 @@ def run(ctx):
                     k = len(candidate["ops"])
                     if len(c["steps"]) >= k and all(tuple(c["steps"][j][:3]) == candidate["ops"][j] for j in range(k)):
                         cand_at = dict(c, steps=c["steps"][:k])
+                if first and sab is None and str(c["sc"]) == control and c["steps"][0][:3] == ["prepare", "n1", 1]:
+                    sab = dict(c, steps=c["steps"][:2], sabotage="n1/1")
         if first:
             ctx.sample({"scenario_1": tb["scenarios"]["1"], "behaviour": json.loads(open(path).readline())})
-        extra = [cand_at] if (first and cand_at is not None) else []
-        n_extra_same_table = len(extra)
+        # appended to the first replay: TLC's candidate, the stored finding cases (each brings its scenario), the self-test case
+        extra = []
+        roles = []
+        tbx = json.loads(json.dumps(tb))
+        if first:
+            if cand_at is not None:
+                extra.append(cand_at)
+                roles.append(("candidate", None))
+            nxt = len(tbx["scenarios"]) + 1
+            for k in known:
+                kc = k["case"]
+                tbx["scenarios"][str(nxt)] = kc["creds"]["scenarios"][str(kc["case"]["sc"])]
+                extra.append(dict(kc["case"], sc=nxt))
+                roles.append(("stored", k))
+                nxt += 1
+            if sab is not None:
+                extra.append(sab)
+                roles.append(("selftest", None))
         with open(path, "a") as f:
             for c in extra:
                 f.write(json.dumps(c, separators=(",", ":")) + "\n")
-        cp = ctx.write_ndjson("creds-%d.json" % len(cov["go_runs"]), [tb])
+        cp = ctx.write_ndjson("creds-%d.json" % len(cov["go_runs"]), [tbx])
         res, summ, _ = ctx.harness(R.PKG, R.HARNESS, R.RUN_REPLAY, path, env={
-            "VERIF_RELOAD_CREDS": cp, "VERIF_RELOAD_PROP": "C29", "VERIF_RELOAD_HANDSHAKE_EVERY": 10 if thorough else 5,
+            "VERIF_RELOAD_CREDS": cp, "VERIF_RELOAD_PROP": "C29", "VERIF_RELOAD_HANDSHAKE_EVERY": 10 if thorough else 8,
             "VERIF_RELOAD_USE_PTR": 1, "VERIF_RELOAD_KEEP_FROM": n})
-        if summ["cases"] != n + n_extra_same_table:
-            raise vlib.Inconclusive("harness replayed %d of %d behaviours" % (summ["cases"], n + n_extra_same_table))
+        if summ["cases"] != n + len(extra):
+            raise vlib.Inconclusive("harness replayed %d of %d behaviours" % (summ["cases"], n + len(extra)))
         ctx.log(label, "->", n, "behaviours,", summ["deviating_cases"], "deviate; drift", summ["drift"], summ["auth_drift"])
         total += n
         cov["traces_validated_against_impl"] += n
@@ -178,74 +192,63 @@ def run(ctx):
             ctx.notes.append("MODEL-DRIFT: the code left the I-level prediction (%d map, %d authentication answers), e.g. %s %s" % (
                 summ["drift"], summ["auth_drift"], summ["drift_example"], summ["auth_drift_example"]))
             cov["model_drift"] = cov.get("model_drift", 0) + summ["drift"] + summ["auth_drift"]
-        kept = [x for x in res if "kept" in (x.get("tags") or [])]
+        kept = sorted([x for x in res if "kept" in (x.get("tags") or [])], key=lambda x: x["case"])
         plainres = [x for x in res if "kept" not in (x.get("tags") or [])]
-        for x in plainres + kept:
+        if len(kept) != len(extra):
+            raise vlib.Inconclusive("harness reported %d of %d appended behaviours" % (len(kept), len(extra)))
+        counts = dict(summ["sig_count"])
+        reportable = list(plainres)
+        still = 0
+        for x, (role, k) in zip(kept, roles):
+            if role == "selftest":
+                selftest["wrong_expectation_detected"] = any(
+                    "configured pair of the changed namespace rejected" in d["sig"] for d in x.get("devs", []))
+                for d in x.get("devs", []):
+                    counts[d["sig"]] -= 1
+                continue
+            if role == "stored":
+                x["obs"] = k["case"]["case"]
+                x["_creds"] = k["case"]["creds"]
+                still += 1 if x.get("devs") else 0
+            elif role == "candidate":
+                confirmed = bool(x.get("devs"))
+                cov["ilevel_counterexample"] = {"invariant": candidate["violated"], "scenario": table["scenarios"][str(candidate["sc"])],
+                                                "operations": ["%s(%s%s)" % (o[0], o[1], ",%d" % o[2] if o[2] else "") for o in candidate["ops"]],
+                                                "confirmed_on_real_code": confirmed}
+                if not confirmed:
+                    ctx.notes.append("MODEL-DRIFT: TLC's counterexample for the code-shaped directory %s was replayed and the real code "
+                                     "does NOT show it (cdir of spec/Reload.tla no longer describes UserManager)" % (candidate["ops"],))
+            reportable.append(x)
+        if first and candidate and not any(r == "candidate" for r, _ in roles):
+            ctx.notes.append("TLC's counterexample was not among the generated behaviours and could not be replayed")
+        for x in reportable:
             st = min([s for s in (step_of(d["what"]) for d in x.get("devs", [])) if s is not None] or [None], default=None)
             if st is not None and isinstance(x.get("obs"), dict):
                 x["obs"] = dict(x["obs"], steps=x["obs"]["steps"][:st + 1])
-        # the stored case carries only its own scenario
-        for x in plainres + kept:
-            if isinstance(x.get("obs"), dict):
-                x["_creds"] = {"scenarios": {str(x["obs"]["sc"]): tb["scenarios"][str(x["obs"]["sc"])]}, "extra": tb["extra"]}
-        report(ctx, plainres + kept, summ, names, nv)
-        if first and candidate:
-            confirmed = bool(kept and kept[0].get("devs")) if cand_at is not None else False
-            cov["ilevel_counterexample"] = {"invariant": candidate["violated"], "scenario": table["scenarios"][str(candidate["sc"])],
-                                            "operations": ["%s(%s%s)" % (o[0], o[1], ",%d" % o[2] if o[2] else "") for o in candidate["ops"]],
-                                            "confirmed_on_real_code": confirmed}
-            if not confirmed:
-                ctx.notes.append("MODEL-DRIFT: TLC's counterexample for the code-shaped directory %s was replayed and the real code does "
-                                 "NOT show it (cdir of spec/Reload.tla no longer describes UserManager)" % (candidate["ops"],))
+            if isinstance(x.get("obs"), dict) and "_creds" not in x:
+                x["_creds"] = {"scenarios": {str(x["obs"]["sc"]): tbx["scenarios"][str(x["obs"]["sc"])]}, "extra": tb["extra"]}
+        report(ctx, reportable, {k: v for k, v in counts.items() if v > 0}, names, nv)
+        if first and known:
+            cov["stored_finding_cases"] = {"replayed": len(known), "still_deviating": still,
+                                           "fixed_entries": sum(1 for k in known if k.get("status") == "fixed")}
+            stale = [k["signature"] for k, x in zip(known, [x for x, (r, _) in zip(kept, roles) if r == "stored"])
+                     if k.get("status", "known") == "known" and not x.get("devs")]
+            if stale:
+                ctx.notes.append("stored cases of findings still listed as known no longer deviate: %s" % stale)
         first = False
 
-    # ------------------------------------------------------------------ 3. stored finding cases + binding self-test
-    # (one harness call: every stored case brings its own scenario, renumbered; plus the behaviours of a clean scenario)
-    sc_clean = {"n1": {"1": [["a", "x"]], "2": [["a", "y"]]}, "n2": {"1": [["b", "x"]], "2": [["b", "y"]]}}
-    tb_clean = {"scenarios": {"1": sc_clean}, "extra": []}
-    path, n, _ = R.generate(ctx, names2, nv, tb_clean, empty(names2), True, 2, True, "self-test behaviours")
-    clean_cases = ctx.read_ndjson(path)
-    merged = {"scenarios": {"1": sc_clean}, "extra": [[u, p] for u in R.ALPHABET for p in R.ALPHABET]}
-    batch = list(clean_cases)
-    for i, kc in enumerate(known_cases):
-        old = str(kc["case"]["sc"])
-        merged["scenarios"][str(i + 2)] = kc["creds"]["scenarios"][old]
-        batch.append(dict(kc["case"], sc=i + 2))
-    cp = ctx.write_ndjson("creds-merged.json", [merged])
-    res, summ, _ = ctx.harness(R.PKG, R.HARNESS, R.RUN_REPLAY, batch, env={
-        "VERIF_RELOAD_CREDS": cp, "VERIF_RELOAD_PROP": "C29", "VERIF_RELOAD_HANDSHAKE_EVERY": 1, "VERIF_RELOAD_USE_PTR": 1,
-        "VERIF_RELOAD_KEEP_FROM": 0})
-    hit = 0
-    for x in res:
-        if x["case"] < len(clean_cases):
-            x["_creds"] = tb_clean           # a clean scenario: any deviation here is an observation like any other
-        else:
-            kc = known_cases[x["case"] - len(clean_cases)]
-            x["_creds"] = kc["creds"]
-            x["obs"] = kc["case"]
-            hit += 1 if x.get("devs") else 0
-    if len(res) != len(batch):
-        raise vlib.Inconclusive("harness reported %d of %d kept behaviours" % (len(res), len(batch)))
-    report(ctx, res, summ, names2, nv)
-    if known_cases:
-        cov["stored_finding_cases"] = {"replayed": len(known_cases), "still_deviating": hit}
-        if hit < len(known_cases):
-            ctx.notes.append("%d of %d stored finding cases no longer deviate (fixed?)" % (len(known_cases) - hit, len(known_cases)))
-    # the real proxy is configured with another password for configuration n1/1 than the reference believes
-    res_bad, summ_bad = R.replay(ctx, "C29", path, tb_clean, use_ptr=True, extra_env={"VERIF_RELOAD_SABOTAGE": "n1/1"})
-    st = {"wrong_expectation_detected": any("configured pair of the changed namespace rejected" in k for k in summ_bad["sig_count"])}
-    cov["binding_selftest"] = st
     cov["distinct_nontrivial"] = nontriv
     cov["rule"] = ("behaviours = sequences of reload(n, configuration)/delete(n) enumerated by TLC per credential scenario (all of a "
-                   "bounded length, plus seeded simulation); non-trivial = two different namespaces are loaded and at least one loaded "
-                   "credential contains ':'")
+                   "bounded length, plus seeded simulation in the thorough tier); non-trivial = two different namespaces are loaded and "
+                   "at least one loaded credential contains ':'")
     cov["behaviours_replayed"] = total
-    if not all(st.values()):
-        raise vlib.Inconclusive("binding self-test failed: %s" % st)
+    cov["binding_selftest"] = selftest
+    if not selftest.get("wrong_expectation_detected"):
+        raise vlib.Inconclusive("binding self-test failed: a proxy configured with another password than the reference believes was "
+                                "not reported (%s)" % selftest)
 
 
-def report(ctx, res, summ, names, nv):
-    sig_count = summ.get("sig_count", {})
+def report(ctx, res, sig_count, names, nv):
     first = {}
     for r in res:
         for d in r.get("devs", []):
